@@ -56,7 +56,7 @@ def canon(r):
 
 
 def run(ctx):
-    progs = programs(ctx, 150 if ctx.quick else 1500)
+    progs = programs(ctx, 150 if ctx.quick else 500)
     H = 3
     seeds = ['0', '1', '2'] if ctx.quick else [str(x) for x in range(16)]
     cex, nontriv = [], set()
